@@ -53,6 +53,7 @@ class FileContract:
         self.modprelude = []      # nested inline module names that need the vstd prelude
         self.file_rewrites = []   # (from, to, count) applied outside fns (rare)
         self.props = []           # default property ids served by every fn of this file
+        self.constwraps = []      # (Type or module, NAME) constants wrapped in place
 
 
 def parse_contracts(paths):
@@ -97,6 +98,14 @@ def parse_contracts(paths):
                     cur_file.consts.append((hm.group(1), hm.group(2), hm.group(3))); continue
                 if d == 'props':
                     close_block(); cur_file.props = arg.split(); continue
+                if d == 'constwrap':
+                    # @constwrap Type::A B C   or   @constwrap modname::A B C   (wrapped in verus!{} where they stand)
+                    close_block()
+                    parts = arg.split()
+                    head, first = parts[0].rsplit('::', 1)
+                    for nm in [first] + parts[1:]:
+                        cur_file.constwraps.append((head, nm))
+                    continue
                 if d == 'modprelude':
                     close_block(); cur_file.modprelude.append(arg); continue
                 if d == 'spec':
@@ -282,6 +291,15 @@ class Rewriter:
                 if r is not None:
                     out.append(r)
                     prev_end = st[end - 1].b; i = end; continue
+            # (c2) X.get_unchecked(E) used as a reference (no deref): &X[E]
+            if t.k == ID and (i == lo or st[i - 1].s not in ('.', ':')) :
+                end = self._postfix_end(i, hi)
+                if end - i >= 5 and st[end - 1].s == ')':
+                    o = match_open(st, end - 1)
+                    if st[o - 1].s == 'get_unchecked' and st[o - 2].s == '.' and o - 2 > i - 1:
+                        out.append('%s[%s]' % (self.rw(i, o - 2), self.rw(o + 1, end - 1)))
+                        self.counts['get_unchecked_ref'] = self.counts.get('get_unchecked_ref', 0) + 1
+                        prev_end = st[end - 1].b; i = end; continue
             # (d) integer byte-order constructors
             if t.k == ID and t.s in ('u16', 'u32', 'u64') and i + 4 < hi and st[i + 1].s == ':' and st[i + 2].s == ':' \
                     and (t.s, st[i + 3].s) in INT_FNS and st[i + 4].s == '(':
@@ -615,13 +633,11 @@ def weave_fn(sf, it, fc, report):
     new = ''.join(out)
     # leftovers of unsafe idioms not covered by the table
     left = []
-    body_new = new[new.find('{'):]
-    for needle in ('.as_ptr()', 'get_unchecked', 'from_raw_parts(', 'from_raw_parts_mut', 'copy_nonoverlapping', 'offset_from', 'as *const', 'as *mut', 'MaybeUninit', 'set_len('):
-        if needle in body_new and 'crate::vx::raw_parts' not in needle:
-            # allow occurrences produced by the table itself
-            cleaned = body_new.replace('crate::vx::raw_parts(', '')
-            if needle in cleaned:
-                left.append(needle)
+    body_new = ''.join(t.s + ' ' for t in sig(lex(new[new.find('{'):])))   # comments stripped
+    for needle in ('as_ptr', 'as_mut_ptr', 'get_unchecked', 'get_unchecked_mut', 'from_raw_parts', 'from_raw_parts_mut', 'copy_nonoverlapping',
+                   'offset_from', 'MaybeUninit', 'set_len', 'transmute'):
+        if re.search(r'(?<![\w])' + needle + r'(?![\w])', body_new) and not fc.external_body:
+            left.append(needle)
     extra_attrs = ''.join('    %s\n' % a for a in fc.attrs)
     if fc.external_body:
         extra_attrs += '    #[verifier::external_body]\n'
@@ -701,6 +717,17 @@ def weave_file(srcdir, fcon, out_map, problems):
         edits.append((it.start, it.end, ''))
         header = hdr or ('impl %s' % tname)
         appended.append(('::vstd::prelude::verus!{ %s {\n%s\n} }\n' % (header, text[it.start:it.end].rstrip()), None))
+    for head, cname in fcon.constwraps:
+        if head[0].islower():
+            its = [it for it in sf.items if it.kind == 'const' and it.name == cname and it.impl is None and it.modpath == head.split('::')]
+        else:
+            its = sf.find_consts(head, cname)
+        if len(its) != 1:
+            problems.append({'kind': 'lost_anchor', 'what': 'const %s::%s in %s (%d found)' % (head, cname, fcon.relpath, len(its))}); continue
+        it = its[0]
+        a = st[it.first].a
+        edits.append((a, a, '::vstd::prelude::verus!{ '))
+        edits.append((it.end, it.end, ' }'))
     # --- impl-level spec items ---
     for tname, hdr, txt in fcon.impls:
         header = hdr
